@@ -231,4 +231,90 @@ theorem exec_inv (ops : List Op) (db0 : Db) (s : List Ev) (st : St) (hi : Inv op
 theorem start_inv (ops : List Op) (db0 : Db) : Inv ops db0 (start db0) :=
   ⟨rfl, fun e he => by cases he⟩
 
+/-! ### mutations of pairwise different rows never overlap -/
+
+def Distinct (ops : List Op) : Prop :=
+  ∀ i j, i < ops.length → j < ops.length → i ≠ j → keyOf ops i ≠ keyOf ops j
+
+def PendValid (ops : List Op) (st : St) : Prop := ∀ e ∈ st.pend, e.1 < ops.length
+
+theorem step_pendValid (ops : List Op) (st : St) (ev : Ev) (h : PendValid ops st) : PendValid ops (step ops st ev) := by
+  cases ev with
+  | r i =>
+    cases hop : ops[i]? with
+    | none => simp only [step, hop]; exact h
+    | some op =>
+      have hi : i < ops.length := by
+        rcases Nat.lt_or_ge i ops.length with h' | h'
+        · exact h'
+        · rw [List.getElem?_eq_none h'] at hop; cases hop
+      by_cases hc : ((st.pend.any fun e => decide (e.1 = i)) || st.done.any fun e => decide (e.1 = i)) = true
+      · simp only [step, hop, hc]; exact h
+      · cases hp : read st.db op (st.clock + 1) with
+        | none => simp only [step, hop, hc, hp]; exact h
+        | some p =>
+          simp only [step, hop, hc, hp]
+          intro e he
+          rcases List.mem_cons.mp he with rfl | he
+          · exact hi
+          · exact h e he
+  | v i =>
+    by_cases hc : ((st.pend.any fun e => decide (e.1 = i)) && !st.queue.contains i) = true
+    · simp only [step, hc]; exact h
+    · simp only [step]; rw [if_neg hc]; exact h
+  | w i =>
+    cases hq : st.queue with
+    | nil => simp only [step, hq]; exact h
+    | cons j q =>
+      by_cases hji : j ≠ i
+      · simp only [step, hq]; rw [if_pos hji]; exact h
+      · cases hf : st.pend.find? (fun e => decide (e.1 = i)) with
+        | none => simp only [step, hq]; rw [if_neg hji]; simp only [hf]; exact h
+        | some x =>
+          simp only [step, hq]; rw [if_neg hji]; simp only [hf]
+          intro e he
+          exact h e (List.mem_filter.mp he).1
+
+theorem step_noOverlap (ops : List Op) (st : St) (ev : Ev) (hd : Distinct ops) (hv : PendValid ops st)
+    (ho : st.overlap = false) : (step ops st ev).overlap = false := by
+  cases ev with
+  | r i =>
+    simp only [step]
+    split
+    · exact ho
+    · split
+      · exact ho
+      · split <;> exact ho
+  | v i => simp only [step]; split <;> exact ho
+  | w i =>
+    cases hq : st.queue with
+    | nil => simp only [step, hq]; exact ho
+    | cons j q =>
+      by_cases hji : j ≠ i
+      · simp only [step, hq]; rw [if_pos hji]; exact ho
+      · cases hf : st.pend.find? (fun e => decide (e.1 = i)) with
+        | none => simp only [step, hq]; rw [if_neg hji]; simp only [hf]; exact ho
+        | some x =>
+          obtain ⟨i', d, p⟩ := x
+          have hmem := List.mem_of_find?_eq_some hf
+          have hi' : i' = i := by
+            have := List.find?_some hf
+            simpa using this
+          subst hi'
+          simp only [step, hq]; rw [if_neg hji]; simp only [hf, ho, Bool.false_or]
+          rw [List.any_eq_false]
+          intro e he
+          obtain ⟨hm, hne⟩ := List.mem_filter.mp he
+          have hne' : e.1 ≠ i' := by simpa using hne
+          have := hd e.1 i' (hv e hm) (hv _ hmem) hne'
+          simpa using this
+
+theorem exec_noOverlap (ops : List Op) (s : List Ev) (st : St) (hd : Distinct ops) (hv : PendValid ops st)
+    (ho : st.overlap = false) : (s.foldl (step ops) st).overlap = false := by
+  induction s generalizing st with
+  | nil => exact ho
+  | cons e s ih =>
+    simp only [List.foldl_cons]
+    exact ih _ (step_pendValid ops st e hv) (step_noOverlap ops st e hd hv ho)
+
 end Discret.Pipeline
